@@ -62,6 +62,24 @@ func driveBimap(plan []M, out *Out, _ []string) {
 				e["pr"], e["pok"] = 0, bm[n].ContainsForward(bmKey(num(c, "k")))
 			case "ContainsReverse":
 				e["pr"], e["pok"] = 0, bm[n].ContainsReverse(bmVal(num(c, "v")))
+			case "RangeDel", "RangeAdd":
+				// Range whose callback changes the bimap at the first pair it sees: removes the pair of key k (RangeDel), or adds
+				// (k, v), evicting whatever used k or v (RangeAdd).  Recorded: the pairs the callback was shown, in order.
+				vis := [][]int{}
+				first := true
+				bm[n].Range(func(k, v int) bool {
+					vis = append(vis, []int{bmKeyID(k, true), bmValID(v, true)})
+					if first {
+						first = false
+						if op == "RangeDel" {
+							bm[n].RemoveForward(bmKey(num(c, "k")))
+						} else {
+							bm[n].Add(bmKey(num(c, "k")), bmVal(num(c, "v")))
+						}
+					}
+					return true
+				})
+				e["vis"] = vis
 			case "Clear":
 				bm[n].Clear()
 			case "Clone":
